@@ -165,7 +165,9 @@ pub fn install_panic_hook() {
             .location()
             .map(|l| format!("{}:{}", l.file(), l.line()))
             .unwrap_or_else(|| "?".into());
-        LAST_PANIC.with(|p| *p.borrow_mut() = Some(format!("{msg} @ {loc}")));
+        let description = format!("{msg} @ {loc}");
+        crate::sched::thread_panicked(&description);
+        LAST_PANIC.with(|p| *p.borrow_mut() = Some(description));
     }));
 }
 
